@@ -4,6 +4,8 @@ Ops (Driver/C08.lean): eui_rt ver dial v ; eui_parse addr version ; eui_acc ver 
 eui_iab ver v ; iab_split e strict ; eui_get dial v idx ; eui_set dial v idx val ;
 eui_derive ver v prefix ; eui_cmp ver1 v1 ver2 v2 ; eui_fmt ver v dial|-.
 Dialect token: built-in class name or D,ws,nw,<hex sep>,pad,U|L (user subclass).
+Audit round 2a ops (Model/Eui2.lean): eui_valid ver arg ; eui_cmpw ver v operand ; eui_ctor arg version dialect ;
+eui_setvalue ver arg ; eui_setdialect ver dialect ; eui_getany dial v idx ; eui_setany dial v idx val ; eui_dobj ver v.
 Every error path prints the exception class on both sides (`!` + common.errname / Err.tag): the
 classes are tied by correspondence; the oracle (the property names no classes) only asks for a
 rejection."""
@@ -29,6 +31,13 @@ RULE = ('eui_rt: structured values (boundaries, aligned+-1, all-decimal-digit he
         'random); eui_fmt: format(dialect) for own-family, other-family and user dialects and format(None) under a random own '
         'dialect; decimal-digit strings of every length 1..21 (bare-EUI lengths 11/12/16 included) around 2^48 / 2^64, with '
         'and without a final newline; exception classes are printed on both sides for every error path. '
+        'audit 2a: valid_mac / valid_eui64 on the string families of eui_parse (spellings, near misses, mutants, newlines, '
+        'decimal strings) and on non-str arguments; the six operators against str / int / bool / float / None / bytes / huge-int '
+        'operands; the whole constructor (copy construction with matching / other / no version and a dialect argument, float, '
+        'bool, None, bytes, ints on both sides of the int-to-str digit limit 10^4300, dialect None / class / no class); value '
+        'and dialect setters of a live object; __getitem__ / __setitem__ with every index / value kind in every combination; '
+        'eui64() / modified_eui64() with the dialect of the result; print/parse and word assignment under a dialect of the '
+        'other family. '
         'non-trivial = distinct case whose implementation output is not an error')
 
 # independent restatement of the built-in dialects: name -> (ver, word_size, num_words, sep, pad, upper)
@@ -235,7 +244,7 @@ def decimal_hex_values(rng, ver, n):
 # ------------------------------------------------------------------ cases
 
 def corpus():
-    out = []
+    out = list(_audit2_corpus())
     # F9 (5492517): bare all-decimal EUI-64 was read as a decimal EUI-48
     for s in ('0000000041000000', '1234567890123456', '0000000000000000'):
         out.append(Case('eui_parse %s -' % hexs(s), 'corpus/F9', ('parse', s, None)))
@@ -396,6 +405,7 @@ def generate(rng, tier):
     # oracle-only: non-ASCII digits go through int() in the real code
     for s in ('١٢', '１２-00-00-00-00-00', '00-1B-77-49-54-F٠'):
         cases.append(Case(None, 'parse/nonascii', ('parse', s, None)))
+    cases.extend(_audit2_cases(rng, mult))
     cases.extend(platform_cases.pyint_cases(rng, 100 * mult))
     cases.extend(platform_cases.pyslice_cases(rng, 60 * mult))
     return cases
@@ -418,6 +428,8 @@ def impl(c):
     a = c.args
     if c.platform:
         return platform_cases.impl(c)
+    if a[0] in A2_IMPL:
+        return A2_IMPL[a[0]](a)
     if a[0] == 'rt':
         _, ver, d, v = a
         dobj = dialect_obj(ver, d)
@@ -511,6 +523,8 @@ def oracle(c, got):
     if c.platform:
         return None
     got = _norm(got)
+    if a[0] in A2_ORACLE:
+        return A2_ORACLE[a[0]](a, got)
     if a[0] == 'rt':
         _, ver, d, v = a
         s = ref_print(ver, d, v)
@@ -601,6 +615,8 @@ def repro(c):
     a = c.args
     if c.platform:
         return repr(a)
+    if a[0] in A2_IMPL:
+        return 'props.c08.A2_IMPL[%r](%r)   # %s' % (a[0], a, A2_REPRO.get(a[0], ''))
     if a[0] == 'rt':
         return 'e = EUI(%d, version=%d, dialect=<%s>); s = str(e); EUI(s), EUI(s, version=%d)' % (a[3], a[1], a[2], a[1])
     if a[0] == 'parse':
@@ -620,3 +636,496 @@ def repro(c):
     if a[0] == 'derive':
         return 'e = EUI(%d, version=%d, dialect=<%s>); e.eui64(), e.modified_eui64(), e.ipv6(%d), e.ipv6_link_local()' % (a[2], a[1], a[4], a[3])
     return 'EUI(%d, version=%d, dialect=<%s>) <cmp> EUI(%d, version=%d, dialect=<%s>)' % (a[3], a[1], a[2], a[6], a[4], a[5])
+
+
+# ====================================================================== audit round 2a (Model/Eui2.lean)
+#
+# Argument encoding inside Case.args (ints / strs / None / tuples only): a str or an int stands for itself;
+# ('b', 0|1) a bool; ('f', '<float repr>') a finite float; ('N',) None; ('B', text) a bytes object;
+# ('E', ver, v, dver, dialect token) an EUI object of version ver whose dialect is looked up in family dver;
+# ('O', kind) an object that is neither int nor slice (index / value positions): kind str | float | none | tuple.
+
+import re as _re
+
+BIGS = (10 ** 4299, 10 ** 4300 - 1, 10 ** 4300, 10 ** 4300 + 12345, 10 ** 5000)      # around the int-to-str digit limit
+
+
+def _pyarg(x):
+    if isinstance(x, tuple):
+        k = x[0]
+        if k == 'b':
+            return bool(x[1])
+        if k == 'f':
+            return float(x[1])
+        if k == 'N':
+            return None
+        if k == 'B':
+            return x[1].encode()
+        if k == 'E':
+            return common.make_eui(x[2], x[1], dialect_obj(x[3], x[4]))
+        if k == 'O':
+            return {'str': 'x', 'float': 1.0, 'none': None, 'tuple': (0, 1)}[x[1]]
+        raise ValueError(x)
+    return x
+
+
+def _tok(x):
+    """driver token of an argument"""
+    if isinstance(x, tuple):
+        k = x[0]
+        if k == 'b':
+            return str(int(x[1]))                  # a bool IS an int: the model gets 0 / 1
+        if k == 'f':
+            return 'f;%d' % int(float(x[1]))       # int(x): truncation towards zero (CPython's own, not netaddr)
+        if k == 'N':
+            return 'N'
+        if k == 'B':
+            return 'B'
+        if k == 'E':
+            return 'E;%d;%d;%s' % (x[1], x[2], x[4])
+        if k == 'O':
+            return 'O'
+        raise ValueError(x)
+    if isinstance(x, str):
+        return hexs(x)
+    return str(x)
+
+
+def _dtok(dia):
+    return '-' if dia is None else 'J' if dia == 'J' else dia[1]
+
+
+def _dobj(dia):
+    return None if dia is None else 5 if dia == 'J' else dialect_obj(dia[0], dia[1])
+
+
+def _fields(dver, d):
+    ws, nw, sep, pad, up = dinfo(dver, d)
+    return '%d,%d,%s,%d,%s' % (ws, nw, hexs(sep), pad, 'U' if up else 'L')
+
+
+def _show_dialect(cls):
+    m = _re.match(r'^%(?:[.0]?(\d+))?([xX])$', cls.word_fmt)
+    return '%d,%d,%s,%d,%s' % (cls.word_size, cls.num_words, hexs(cls.word_sep), int(m.group(1) or 0),
+                               'U' if m.group(2) == 'X' else 'L')
+
+
+def _show_obj(e):
+    return '%d:%d:%s' % (e.version, int(e), _show_dialect(e.dialect))
+
+
+DEFAULT_D = {48: 'mac_eui48', 64: 'eui64_base'}
+
+
+def _ref_value_of(x, version):
+    """expected (ver, value) of EUI(x, version) for an encoded argument, None = rejected (integers and grammar only)"""
+    if isinstance(x, tuple):
+        k = x[0]
+        if k == 'b':
+            return ref_construct(int(x[1]), version)
+        if k == 'f':
+            if version not in (48, 64):
+                return None
+            n = int(float(x[1]))
+            return (version, n) if 0 <= n <= MAXV[version] else None
+        if k == 'E':
+            return (x[1], x[2]) if version is None or version == x[1] else None
+        return None                                 # None, bytes
+    return ref_construct(x, version)
+
+
+def _nl_ok(x, version, got_vv):
+    """Python's `$`: a final newline after an accepted spelling may be accepted"""
+    return isinstance(x, str) and x.endswith('\n') and got_vv == show_vv(ref_construct(x[:-1], version))
+
+
+def _parse_strings(rng, ver, v):
+    out = list(spellings(rng, ver, v))
+    out += rng.sample(near_spellings(rng, ver, v), 4)
+    out += [mutate(rng, s) for s in rng.sample(out, 4)]
+    s = rng.choice(out[:8])
+    out += [s + '\n', s + '\n\n', '\n' + s]
+    n = rng.choice((1, 5, 11, 12, 13, 16, 17))
+    out.append(''.join(rng.choice('0123456789') for _ in range(n)))
+    return out
+
+
+def _audit2_corpus():
+    out = []
+    a = 0x001b774954fd
+    out.append(Case('eui_cmpw 48 %d %s' % (a, hexs('001b.7749.54fd')), 'corpus/a2-11', ('cmpw', 48, 'mac_eui48', a, '001b.7749.54fd')))
+    out.append(Case('eui_cmpw 64 5 5', 'corpus/a2-11', ('cmpw', 64, 'eui64_base', 5, 5)))
+    out.append(Case('eui_cmpw 48 %d %s' % (a, hexs('junk')), 'corpus/a2-11', ('cmpw', 48, 'mac_eui48', a, 'junk')))
+    out.append(Case('eui_ctor E;48;%d;mac_cisco 64 -' % a, 'corpus/a2-8', ('ctor', ('E', 48, a, 48, 'mac_cisco'), 64, None)))
+    out.append(Case('eui_ctor E;48;%d;mac_cisco - mac_unix' % a, 'corpus/a2-8', ('ctor', ('E', 48, a, 48, 'mac_cisco'), None, (48, 'mac_unix'))))
+    out.append(Case('eui_setvalue 48 %s' % hexs('1234'), 'corpus/a2-13', ('setvalue', 48, 'mac_eui48', a, '1234')))
+    out.append(Case('eui_ctor %s - -' % hexs('1234'), 'corpus/a2-13', ('ctor', '1234', None, None)))
+    out.append(Case('eui_ctor %d - -' % 10 ** 5000, 'corpus/a2-4', ('ctor', 10 ** 5000, None, None)))
+    out.append(Case('eui_setany mac_eui48 %d i;99 O' % a, 'corpus/a2-17', ('setany', 48, 'mac_eui48', a, 99, ('O', 'str'))))
+    out.append(Case('eui_setany mac_eui48 %d O 9999' % a, 'corpus/a2-17', ('setany', 48, 'mac_eui48', a, ('O', 'str'), 9999)))
+    out.append(Case('eui_rt 48 eui64_base %d' % a, 'corpus/a2-2', ('rtoff', 48, 64, 'eui64_base', a)))
+    out.append(Case('eui_set eui64_base %d 0 255' % a, 'corpus/a2-2', ('setoff', 48, 64, 'eui64_base', a, 0, 255)))
+    return out
+
+
+def _audit2_cases(rng, mult):
+    cases = []
+    for ver in (48, 64):
+        other = 112 - ver
+        vals = rng.sample(_vals(rng, ver, 1), 10 * mult)
+        # ---- valid_mac / valid_eui64 on the string families of eui_parse, both functions on every string
+        for v in vals:
+            for s in _parse_strings(rng, ver, v):
+                for fver in (48, 64):
+                    cases.append(Case('eui_valid %d %s' % (fver, hexs(s)), 'valid/str%d' % fver, ('valid', fver, s)))
+        for fver in (48, 64):
+            for x in (5, ('N',), ('B', '00-1B-77-49-54-FD'), ('B', '0011223344556677'), ('f', '1.5'), 0x001b774954fd, ''):
+                cases.append(Case('eui_valid %d %s' % (fver, hexs(x) if isinstance(x, str) else 'O'), 'valid/other', ('valid', fver, x)))
+        # ---- the six operators against any operand
+        for v in vals:
+            d = rng.choice(dialects(ver))
+            sp = spellings(rng, ver, v)
+            ops = [rng.choice(sp), rng.choice(spellings(rng, ver, (v + 1) & MAXV[ver])), rng.choice(spellings(rng, other, v & MAXV[other])),
+                   mutate(rng, rng.choice(sp)), 'junk', '', str(v), str(v + 1), v, v + 1, v - 1, -1, 1 << 64, (1 << 64) - 1,
+                   ('b', v & 1), ('f', repr(float(v & 0xffff))), ('N',), ('B', rng.choice(sp)), rng.choice(BIGS), -rng.choice(BIGS),
+                   ('E', ver, v, ver, rng.choice(dialects(ver))), ('E', other, v & MAXV[other], other, rng.choice(dialects(other)))]
+            for o in rng.sample(ops, 9):
+                cases.append(Case('eui_cmpw %d %d %s' % (ver, v, _tok(o)), 'cmpw/%s' % _kind(o), ('cmpw', ver, d, v, o)))
+        for v in (0, 1, 5):                     # small values: int / bool / float operands that denote them
+            for o in (v, ('b', v & 1), ('f', '%d.0' % v), ('f', '%d.7' % v), str(v)):
+                cases.append(Case('eui_cmpw %d %d %s' % (ver, v, _tok(o)), 'cmpw/%s' % _kind(o), ('cmpw', ver, rng.choice(dialects(ver)), v, o)))
+        # ---- the whole constructor
+        for v in vals:
+            src = ('E', ver, v, ver, rng.choice(dialects(ver)))
+            off = ('E', ver, v & MAXV[48], other, rng.choice(dialects(other)))       # an object carrying an other-family dialect
+            s = rng.choice(spellings(rng, ver, v))
+            args = [src, off, s, mutate(rng, s), v, ('b', v & 1), ('f', repr(v / 7.0)), ('f', repr(float(v & 0xffffffff))),
+                    ('f', '-0.5'), ('f', '-1.5'), ('f', repr(float(1 << ver))), ('f', repr(float((1 << ver) - 1024))),
+                    ('N',), ('B', s), rng.choice(BIGS), -rng.choice(BIGS), str(v), -1, 1 << 64]
+            for x in rng.sample(args, 8) + [src]:
+                version = rng.choice((None, None, ver, other, 32, 0))
+                dia = rng.choice((None, None, 'J', (ver, rng.choice(dialects(ver))), (other, rng.choice(dialects(other)))))
+                cases.append(Case('eui_ctor %s %s %s' % (_tok(x), optint(version), _dtok(dia)), 'ctor/%s' % _kind(x),
+                                  ('ctor', x, version, dia)))
+        for n in BIGS:
+            for version in (None, 48, 64, 3):
+                for m in (n, -n):
+                    cases.append(Case('eui_ctor %d %s -' % (m, optint(version)), 'ctor/bigint', ('ctor', m, version, None)))
+        # ---- setters of a live object
+        for v in vals:
+            d = rng.choice(dialects(ver))
+            w = rand_value(rng, ver)
+            s = rng.choice(spellings(rng, ver, w))
+            args = [s, s + '\n', rng.choice(spellings(rng, other, w & MAXV[other])), mutate(rng, s), str(w), '1234', w, -1,
+                    MAXV[ver], MAXV[ver] + 1, ('b', 1), ('f', repr(w / 3.0)), ('f', repr(float(1 << ver))), ('N',), ('B', s),
+                    rng.choice(BIGS), -rng.choice(BIGS), ('E', other, w & MAXV[other], other, rng.choice(dialects(other))),
+                    ('E', 64, (w << 16 | 0xffff) & MAXV[64] | 1 << 63, 48, rng.choice(D48)), ('E', ver, w, ver, rng.choice(dialects(ver)))]
+            for x in rng.sample(args, 7):
+                cases.append(Case('eui_setvalue %d %s' % (ver, _tok(x)), 'setvalue/%s' % _kind(x), ('setvalue', ver, d, v, x)))
+            dia = rng.choice((None, 'J', (ver, rng.choice(dialects(ver))), (other, rng.choice(dialects(other)))))
+            cases.append(Case('eui_setdialect %d %s' % (ver, _dtok(dia)), 'setdialect', ('setdialect', ver, d, v, dia)))
+        # ---- __getitem__ / __setitem__: every index kind x every value kind
+        for _ in range(12 * mult):
+            d = rng.choice(dialects(ver))
+            ws, nw = dinfo(ver, d)[:2]
+            v = rand_value(rng, ver)
+            idxs = [rng.randrange(nw), nw, -1, nw + 7, ('b', 1), ('b', 0), ('O', 'str'), ('O', 'float'), ('O', 'none'), ('O', 'tuple'),
+                    ('s', None, None, None), ('s', 0, 1, None), rng.choice(BIGS), -rng.choice(BIGS)]
+            valsx = [0, (1 << ws) - 1, 1 << ws, -1, ('b', 1), ('O', 'str'), ('O', 'float'), ('O', 'none'), rng.choice(BIGS), -rng.choice(BIGS)]
+            for i in idxs:
+                if not (isinstance(i, tuple) and i[0] == 's'):
+                    cases.append(Case('eui_getany %s %d %s' % (d, v, _itok(i)), 'getany/%s' % _kind(i), ('getany', ver, d, v, i)))
+                for x in rng.sample(valsx, 3):
+                    cases.append(Case('eui_setany %s %d %s %s' % (d, v, _itok(i), _tok(x)), 'setany/%s-%s' % (_kind(i), _kind(x)),
+                                      ('setany', ver, d, v, i, x)))
+        # ---- eui64() / modified_eui64(): the dialect of the result
+        for v in vals:
+            d = rng.choice(dialects(ver))
+            cases.append(Case('eui_dobj %d %d' % (ver, v), 'dobj/%d' % ver, ('dobj', ver, d, v)))
+        # ---- an object carrying a dialect of the other family: print / parse and word assignment (the model functions are the
+        #      same `Eui.str` / `Eui.ofAnyF` / `Eui.setItem`; the theorems are off_family_* in Props/C08Audit2.lean)
+        for v in vals:
+            for d in rng.sample(dialects(other), 3):
+                ws, nw = dinfo(other, d)[:2]
+                for u in (v, v & MAXV[48]):
+                    cases.append(Case('eui_rt %d %s %d' % (ver, d, u), 'rt/off-family', ('rtoff', ver, other, d, u)))
+                    idx = rng.choice(list(range(nw)) + [nw])
+                    val = rng.choice([0, 1, (1 << ws) - 1, 1 << ws, 255, rng.getrandbits(ws)])
+                    cases.append(Case('eui_set %s %d %d %d' % (d, u, idx, val), 'set/off-family', ('setoff', ver, other, d, u, idx, val)))
+    return cases
+
+
+def _kind(x):
+    if isinstance(x, tuple):
+        return {'b': 'bool', 'f': 'float', 'N': 'none', 'B': 'bytes', 'E': 'eui', 'O': 'other', 's': 'slice'}[x[0]]
+    if isinstance(x, str):
+        return 'str'
+    return 'bigint' if abs(x) >= 10 ** 4299 else 'int'
+
+
+def _itok(i):
+    if isinstance(i, tuple) and i[0] == 's':
+        return 's;%s;%s;%s' % (optint(i[1]), optint(i[2]), optint(i[3]))
+    if isinstance(i, tuple) and i[0] == 'O':
+        return 'O'
+    return 'i;%s' % _tok(i)
+
+
+def _pyidx(i):
+    if isinstance(i, tuple) and i[0] == 's':
+        return slice(i[1], i[2], i[3])
+    return _pyarg(i)
+
+
+# ------------------------------------------------------------------ implementation side
+
+def _impl_valid(a):
+    _, fver, x = a
+    f = netaddr.valid_mac if fver == 48 else netaddr.valid_eui64
+    r = f(_pyarg(x))
+    return tf(r) if r is True or r is False else '?not-a-bool'
+
+
+def _impl_cmpw(a):
+    _, ver, d, v, o = a
+    import operator
+    out = []
+    for op in (operator.eq, operator.ne, operator.lt, operator.le, operator.gt, operator.ge):
+        x = common.make_eui(v, ver, dialect_obj(ver, d))
+        y = _pyarg(o)
+        out.append(_try(lambda: op(x, y), lambda r: tf(r) if r is True or r is False else '?not-a-bool'))
+    return ' '.join(out)
+
+
+def _impl_ctor(a):
+    _, x, version, dia = a
+    return _try(lambda: EUI(_pyarg(x), version=version, dialect=_dobj(dia)), _show_obj)
+
+
+def _impl_setvalue(a):
+    _, ver, d, v, x = a
+    dobj = dialect_obj(ver, d)
+    e = common.make_eui(v, ver, dobj)
+    y = _pyarg(x)
+    try:
+        e.value = y
+    except Exception as ex:
+        if int(e) != v or e.version != ver or e.dialect is not dobj:
+            return '?changed-on-error'
+        return '!' + common.errname(ex)
+    if e.dialect is not dobj:
+        return '?dialect-changed'
+    return _vv(e)
+
+
+def _impl_setdialect(a):
+    _, ver, d, v, dia = a
+    dobj = dialect_obj(ver, d)
+    e = common.make_eui(v, ver, dobj)
+    try:
+        e.dialect = _dobj(dia)
+    except Exception as ex:
+        if int(e) != v or e.version != ver or e.dialect is not dobj:
+            return '?changed-on-error'
+        return '!' + common.errname(ex)
+    if int(e) != v or e.version != ver:
+        return '?value-changed'
+    return _show_dialect(e.dialect)
+
+
+def _impl_getany(a):
+    _, ver, d, v, i = a
+    e = common.make_eui(v, ver, dialect_obj(ver, d))
+    return _try(lambda: e[_pyidx(i)], lambda r: fwords(r) if isinstance(r, list) else str(int(r)))
+
+
+def _impl_setany(a):
+    _, ver, d, v, i, x = a
+    e = common.make_eui(v, ver, dialect_obj(ver, d))
+    try:
+        e[_pyidx(i)] = _pyarg(x)
+    except Exception as ex:
+        return '!' + common.errname(ex) if int(e) == v else '?changed-on-error'
+    return str(int(e)) if e.version == ver else '?version'
+
+
+def _impl_dobj(a):
+    _, ver, d, v = a
+    e = common.make_eui(v, ver, dialect_obj(ver, d))
+    return _try(e.eui64, _show_obj) + ' ' + _try(e.modified_eui64, _show_obj)
+
+
+def _impl_rtoff(a):
+    _, ver, dver, d, v = a
+    dobj = dialect_obj(dver, d)
+    e = common.make_eui(v, ver, dobj)
+    try:
+        s = str(e)
+    except Exception as ex:
+        return '!' + common.errname(ex)
+    return ' '.join([hexs(s), _try(lambda: EUI(s), _vv), _try(lambda: EUI(s, version=ver), _vv)])
+
+
+def _impl_setoff(a):
+    _, ver, dver, d, v, idx, val = a
+    e = common.make_eui(v, ver, dialect_obj(dver, d))
+    try:
+        e[idx] = val
+    except Exception as ex:
+        return '!' + common.errname(ex) if int(e) == v else '?changed-on-error'
+    return str(int(e)) if e.version == ver else '?version'
+
+
+A2_IMPL = {'valid': _impl_valid, 'cmpw': _impl_cmpw, 'ctor': _impl_ctor, 'setvalue': _impl_setvalue,
+           'setdialect': _impl_setdialect, 'getany': _impl_getany, 'setany': _impl_setany, 'dobj': _impl_dobj,
+           'rtoff': _impl_rtoff, 'setoff': _impl_setoff}
+A2_REPRO = {'valid': 'valid_mac / valid_eui64 (arg)', 'cmpw': 'EUI(v, version, dialect) <six operators> operand',
+            'ctor': 'EUI(arg, version=, dialect=)', 'setvalue': 'e.value = arg', 'setdialect': 'e.dialect = arg',
+            'getany': 'e[idx]', 'setany': 'e[idx] = value', 'dobj': 'e.eui64(), e.modified_eui64() with .dialect',
+            'rtoff': 'str(EUI(v, version, dialect of the other family)) and parse back', 'setoff': 'e[idx] = value under an other-family dialect'}
+
+
+# ------------------------------------------------------------------ oracle (integers and the grammar only)
+
+def _or_valid(a, got):
+    _, fver, x = a
+    if not isinstance(x, str):
+        exp = 'F'
+    else:
+        exp = tf(ref_parse(fver, x) is not None)
+        if got != exp and x.endswith('\n') and got == tf(ref_parse(fver, x[:-1]) is not None):
+            return None
+    return None if got == exp else 'valid_%s(%r) gave %s, expected %s' % ('mac' if fver == 48 else 'eui64', x, got, exp)
+
+
+def _cmp6(k1, k2):
+    return ' '.join([tf(k1 == k2), tf(k1 != k2), tf(k1 < k2), tf(k1 <= k2), tf(k1 > k2), tf(k1 >= k2)])
+
+
+def _or_cmpw(a, got):
+    _, ver, d, v, o = a
+    k2 = _ref_value_of(o, None)
+    if isinstance(o, tuple) and o[0] == 'f':
+        k2 = None                                   # a float without a version is no EUI
+    exps = ['F T ! ! ! !' if k2 is None else _cmp6((ver, v), k2)]
+    if isinstance(o, str) and o.endswith('\n'):
+        k3 = ref_construct(o[:-1], None)
+        exps.append('F T ! ! ! !' if k3 is None else _cmp6((ver, v), k3))
+    return None if got in exps else 'comparison with %r gave %s, expected %s' % (o, got, exps[0])
+
+
+def _exp_dialect(ver, dia):
+    if dia == 'J':
+        return None
+    if dia is None:
+        return _fields(ver, DEFAULT_D[ver])
+    return _fields(dia[0], dia[1])
+
+
+def _or_ctor(a, got):
+    _, x, version, dia = a
+    r = _ref_value_of(x, version)
+    if r is None:
+        exp = '!'
+    elif isinstance(x, tuple) and x[0] == 'E':
+        exp = '%d:%d:%s' % (r[0], r[1], _fields(x[3], x[4]))          # copy construction keeps the dialect
+    else:
+        dd = _exp_dialect(r[0], dia)
+        exp = '!' if dd is None else '%d:%d:%s' % (r[0], r[1], dd)
+    if got == exp:
+        return None
+    if isinstance(x, str) and x.endswith('\n'):
+        r = ref_construct(x[:-1], version)
+        dd = _exp_dialect(r[0], dia) if r else None
+        if got == ('!' if dd is None else '%d:%d:%s' % (r[0], r[1], dd)):
+            return None
+    return 'EUI(%r, version=%r, dialect=%r) gave %s, expected %s' % (x, version, dia, got, exp)
+
+
+def _or_setvalue(a, got):
+    _, ver, d, v, x = a
+    if isinstance(x, str):
+        w = ref_parse(ver, x)
+        if w is None and x.endswith('\n'):
+            w2 = ref_parse(ver, x[:-1])
+            if w2 is not None and got == '%d:%d' % (ver, w2):
+                return None
+    elif isinstance(x, tuple) and x[0] == 'E':
+        w = x[2] if x[2] <= MAXV[ver] else None
+    else:
+        r = _ref_value_of(x, ver)
+        w = None if r is None else r[1]
+    exp = '!' if w is None else '%d:%d' % (ver, w)
+    return None if got == exp else 'e.value = %r on an EUI-%d gave %s, expected %s' % (x, ver, got, exp)
+
+
+def _or_setdialect(a, got):
+    _, ver, d, v, dia = a
+    exp = _exp_dialect(ver, dia) or '!'
+    return None if got == exp else 'e.dialect = %r gave %s, expected %s' % (dia, got, exp)
+
+
+def _is_intlike(x):
+    return isinstance(x, int) or (isinstance(x, tuple) and x[0] == 'b')
+
+
+def _or_getany(a, got):
+    _, ver, d, v, i = a
+    ws, nw = dinfo(ver, d)[:2]
+    if not _is_intlike(i):
+        exp = '!'
+    else:
+        k = i if isinstance(i, int) else int(i[1])
+        exp = str(ref_words(v, ws, nw)[k]) if -nw <= k < nw else '!'
+    return None if got == exp else 'e[%r] gave %s, expected %s' % (i, got, exp)
+
+
+def _or_setany(a, got):
+    _, ver, d, v, i, x = a
+    ws, nw = dinfo(ver, d)[:2]
+    if not (_is_intlike(i) and _is_intlike(x)):
+        ok = ('!',)
+    else:
+        k = i if isinstance(i, int) else int(i[1])
+        val = x if isinstance(x, int) else int(x[1])
+        if 0 <= val < (1 << ws) and -nw <= k < nw:
+            sh = ws * (nw - 1 - k % nw)
+            new = str((v & ~(((1 << ws) - 1) << sh)) | (val << sh))
+            ok = (new,) if k >= 0 else (new, '!')
+        else:
+            ok = ('!',)
+    return None if got in ok else 'e[%r] = %r gave %s, expected %s' % (i, x, got, ok[0])
+
+
+def _or_dobj(a, got):
+    _, ver, d, v = a
+    e64 = (((v >> 24) << 40) | (0xfffe << 24) | (v & 0xffffff)) if ver == 48 else v
+    dd = _fields(64, 'eui64_base')
+    exp = '64:%d:%s 64:%d:%s' % (e64, dd, e64 ^ (1 << 57), dd)
+    return None if got == exp else 'eui64() / modified_eui64() objects %s, expected %s' % (got, exp)
+
+
+def _or_rtoff(a, got):
+    _, ver, dver, d, v = a
+    ws, nw = dinfo(dver, d)[:2]
+    if v >= (1 << (ws * nw)):
+        exp = '!'
+    else:
+        s = ref_print(dver, d, v)
+        exp = ' '.join([hexs(s), show_vv(ref_construct(s, None)), show_vv(ref_construct(s, ver))])
+    return None if got == exp else 'print/parse under an other-family dialect gave %s, expected %s' % (got, exp)
+
+
+def _or_setoff(a, got):
+    _, ver, dver, d, v, idx, val = a
+    ws, nw = dinfo(dver, d)[:2]
+    if 0 <= val < (1 << ws) and 0 <= idx < nw and v < (1 << (ws * nw)):
+        sh = ws * (nw - 1 - idx)
+        exp = str((v & ~(((1 << ws) - 1) << sh)) | (val << sh))
+    else:
+        exp = '!'
+    return None if got == exp else 'word assignment under an other-family dialect gave %s, expected %s' % (got, exp)
+
+
+A2_ORACLE = {'valid': _or_valid, 'cmpw': _or_cmpw, 'ctor': _or_ctor, 'setvalue': _or_setvalue, 'setdialect': _or_setdialect,
+             'getany': _or_getany, 'setany': _or_setany, 'dobj': _or_dobj, 'rtoff': _or_rtoff, 'setoff': _or_setoff}
